@@ -42,6 +42,10 @@ Definition hashable_iterable (sort : bool) (elems : list elem) : result pyval :=
   do out <- mapM (fun e : elem => snd e) es;
   Ok (PTuple out).
 
+(* masked arrays: None for a masked element, and the mask bit *)
+Definition mfill (x : pyval) : pyval := if is_maskedc x then PNone else x.
+Definition mbit (x : pyval) : pyval := PBool (is_maskedc x).
+
 Definition factory_val (f : option str) : pyval := match f with None => PNone | Some n => PType n end.
 Definition maxlen_val (m : option Z) : pyval := match m with None => PNone | Some z => PInt z end.
 
@@ -92,11 +96,13 @@ Fixpoint to_hashable (fp : bool) (v : pyval) {struct v} : result pyval :=
       | KDeque ml => do d <- conv_elems; Ok (conv (tp_seq k) (PTuple [maxlen_val ml; d]))
       | KBytearray => Ok (conv (tp_seq k) (PTuple l))                               (* tuple(obj) *)
       | KArray c => Ok (conv (tp_seq k) (PTuple [PStr c; PTuple l]))                (* (typecode, tuple(obj)) *)
-      | KNd _ d sh =>
-          (* (obj.shape, obj.dtype.str, items) with items = tuple(obj.flatten()), for dtype object the elements
-             are converted (after the repair "fix: make the cache key of object ndarrays hashable") *)
-          do items <- (if str_eqb d dt_obj then conv_elems else Ok (PTuple l));
-          Ok (conv (tp_seq k) (PTuple [PTuple (map (fun z => PInt z) sh); PStr d; items]))
+      | KNd msk d sh =>
+          (* (obj.shape, obj.dtype.str, items[, mask]): items = the elements in logical C order (obj.flatten()),
+             converted for dtype object; for a MaskedArray the masked elements are replaced by None and the mask
+             is appended (repairs "object ndarray" and "masked array": the key is hashable) *)
+          do items <- (if str_eqb d dt_obj then conv_elems else Ok (PTuple (if msk then map mfill l else l)));
+          Ok (conv (tp_seq k) (PTuple ([PTuple (map (fun z => PInt z) sh); PStr d; items]
+                                       ++ (if msk then [PTuple (map mbit l)] else []))))
       end
   | PSeries n d idx vals =>
       (* (obj.name, to_hashable(obj.to_dict())) : the dict is unhashable -> dict branch -> sorted items *)
